@@ -65,7 +65,7 @@ def _collect(ctx, val, verdict, extra_obs):
 
 def run(ctx):
     quick = ctx.tier == "quick"
-    lie_heights = "{5}" if quick else "{1, 2, 3, 5, 6}"
+    lie_heights = "{5}" if quick else "{1, 2, 3, 4, 5, 6}"
     nrandom = 240 if quick else 3000
 
     # ---- 1. design spec: every case is an initial state; exhaustive --------------------------
@@ -73,7 +73,7 @@ def run(ctx):
     dump = os.path.join(ctx.work, "cases")
     r1 = ctx.tlc("C20_cases", cfg, dump=[dump], must_pass=True, timeout=2400, workers=8, heap="6g", label="cases")
     descs = _descs(r1)
-    cases = [to_json(s["cs"]) for s in core.read_state_dump(dump + ".dump")]
+    cases = [to_json(s["cs"]) for s in core.read_state_dump(dump + ".dump") if to_json(s["ph"]) == 0]
     if not cases or len(descs) < 2:
         raise Undecided("no cases / chain descriptions exported by TLC")
 
@@ -81,23 +81,30 @@ def run(ctx):
     # refuted by TLC; the strict property (TxResult / validator address bound) must be refuted too
     nonvac = {}
     small = "{5}"
-    for w in WEAK:
+    from concurrent.futures import ThreadPoolExecutor
+
+    def weak(w):
         c = core.cfg_variant(ctx, "C20_weak_%s.cfg" % w, "C20_weak_%s_run.cfg" % w, {"LieHeights": small})
-        rw = ctx.tlc("C20_cases", c, timeout=900, workers=4, label="weak_" + w)
+        return w, ctx.tlc("C20_cases", c, timeout=900, workers=2, heap="2g", label="weak_" + w)
+
+    def other(name, cfgname):
+        c = core.cfg_variant(ctx, cfgname, name + "_run.cfg", {"LieHeights": small})
+        return name, ctx.tlc("C20_cases", c, timeout=900, workers=2, heap="2g", label=name)
+
+    with ThreadPoolExecutor(max_workers=4) as ex:
+        weak_res = list(ex.map(weak, WEAK))
+        oth_res = dict(ex.map(lambda a: other(*a), [("strict", "C20_cases_strict.cfg"), ("extra_complete", "C20_extra_complete.cfg")]))
+    for w, rw in weak_res:
         names = [v["name"] for v in rw.violations]
         want = WEAK_EXPECT.get(w, ["RelaySound", "ExtraSound"])
         if not any(n in want for n in names):
             ctx.save_log("weak_" + w, rw.out)
             raise Undecided("vacuity: weakened spec Weak_%s is not refuted (%s)" % (w, names or rw.errors[:1]))
         nonvac["Weak_%s refuted by TLC" % w] = names[0]
-    rs = ctx.tlc("C20_cases", core.cfg_variant(ctx, "C20_cases_strict.cfg", "C20_strict_run.cfg", {"LieHeights": small}),
-                 timeout=900, workers=4, label="strict")
     nonvac["RelaySoundStrict (TxResult / validator address) refuted by TLC"] = any(
-        v["name"] == "RelaySoundStrict" for v in rs.violations)
-    rx = ctx.tlc("C20_cases", core.cfg_variant(ctx, "C20_extra_complete.cfg", "C20_extra_run.cfg", {"LieHeights": small}),
-                 timeout=900, workers=4, label="extra_complete")
+        v["name"] == "RelaySoundStrict" for v in oth_res["strict"].violations)
     nonvac["ExtraComplete (BlockchainInfo with a fresh light client) refuted by TLC"] = any(
-        v["name"] == "ExtraComplete" for v in rx.violations)
+        v["name"] == "ExtraComplete" for v in oth_res["extra_complete"].violations)
 
     # ---- 2. replay every case on the real client + random chains / double lies -----------------
     rows = _run_harness(ctx, descs, cases, nrandom)
@@ -119,12 +126,12 @@ def run(ctx):
     relayed_lies = {}
     for r in calls:
         distinct.add(hashlib.sha1(json.dumps([r["kind"], r["a"], r["sent"], r["relayed"]], sort_keys=True).encode()).hexdigest())
-        if r["relayed"] and r["f"]["edits"]:
+        if r["relayed"] and r["f"]["edits"] and r.get("changed"):
             k = r["kind"] + ":" + "+".join(".".join("*" if x.isdigit() else x for x in e["path"]) for e in r["f"]["edits"])
             relayed_lies[k] = relayed_lies.get(k, 0) + 1
     honest = [r for r in calls if not r["f"]["edits"]]
     coverage = {
-        "states": r1.distinct,
+        "states": r1.distinct,          # every case appears twice: as enumerated (ph=0) and as judged (ph=1)
         "transitions": r1.generated,
         "traces_validated_against_impl": val["runs"],
         "evaluations": len(rows),
@@ -143,7 +150,9 @@ def run(ctx):
         "honest_calls": len(honest),
         "honest_calls_relayed": sum(1 for r in honest if r["relayed"]),
         "lies_total": len(calls) - len(honest),
-        "lies_relayed": sum(1 for r in calls if r["relayed"] and r["f"]["edits"]),
+        "lies_effective (sent differs from the honest answer)": sum(1 for r in calls if r.get("changed")),
+        "lies_relayed": sum(1 for r in calls if r["relayed"] and r.get("changed")),
+        "client_panics": sum(1 for r in calls if r.get("stage") == "panic"),
         "served_proofs_checked": sum(1 for r in rows if r["ev"] == "Served"),
         "relayed_lie_fields (uncommitted fields S19 / genuine-elsewhere / known findings)": relayed_lies,
         "outside_statement_observations (ConsensusParams, BlockchainInfo)": extra_obs,
